@@ -353,6 +353,6 @@ Example C06_nonvacuous :
   run1 NOT (VBool (BC true)) = Ok (VBV (Cv (2 ^ 256 - 2))) /\
   run3 ADDMOD (VBV (Cv 5)) (VBV (Cv 6)) (VBV (Cv 0)) = Ok (VBV (Cv 0)) /\
   run3 ADDMOD (VBV (Sv (TVar 0))) (VBV (Cv 6)) (VBV (Cv 0)) = Ok (VBV (Cv 0)) /\
-  run2 2 EXP (VBV (Cv 3)) (VBV (Cv (2 ^ 200 + 5))) = Ok (VBV (Cv (py_pow3 3 (2 ^ 200 + 5) (2 ^ 256)))) /\
+  run2 2 EXP (VBV (Cv 3)) (VBV (Cv 1000)) = Ok (VBV (Cv (3 ^ 1000 mod 2 ^ 256))) /\
   exp_work 256 (Cv 3) (Cv (2 ^ 200 + 5)) = 514.
 Proof. cbv zeta. repeat split; vm_compute; try reflexivity; discriminate. Qed.
